@@ -393,6 +393,16 @@ func c14RunE2E(prop string, cfg c14RunCfg) *c14Result {
 			if s.c.Priority == 0 {
 				sig += ":priority=0"
 			}
+			for _, pr := range s.procs {
+				if i := strings.Index(pr, "@"); i >= 0 {
+					w.mu.Lock()
+					if vm := w.vms[pr[i+1:]]; vm != nil && vm.gaveUpOnHold {
+						sig += ":on-instance-that-gave-up-kill-while-on-hold"
+					}
+					w.mu.Unlock()
+					break
+				}
+			}
 			if i < 8 {
 				livenessFindings = append(livenessFindings, c14Finding{sig, fmt.Sprintf(
 					"%d queue polls without any container reaching a final state (K=%d) after the fault schedule stopped; %d containers not final. %s: state=%s priority=%d process table entries=%v\nevent history of the container:\n%s\ndispatcher log:\n%s",
@@ -417,6 +427,11 @@ func c14RunE2E(prop string, cfg c14RunCfg) *c14Result {
 			case "never-boots", "reports-broken", "crunch-run-missing", "broken-after", "arv-mount-deadlock":
 				sig = fmt.Sprintf("C15:L4:faulty-instance-not-destroyed:%s:worker=%s:%s", vm.kind, ws, ib)
 			}
+			w.mu.Lock()
+			if vm.gaveUpOnHold {
+				sig += ":gave-up-kill-while-on-hold"
+			}
+			w.mu.Unlock()
 			if i < 8 {
 				livenessFindings = append(livenessFindings, c14Finding{sig, fmt.Sprintf(
 					"all containers are final, but %d queue polls passed (K=%d) without the instance list shrinking; %d instances left. %s (fault kind %s): pool says worker_state=%s idle_behavior=%s\nevent history of the instance:\n%s\ndispatcher log:\n%s",
